@@ -13,28 +13,28 @@ namespace XotModel
 namespace Forest
 
 /-- One step of a history. -/
-inductive Step where
+inductive HStep where
   | call (c : Call)
   | newNode (v : Value)
   | setConsolidation (b : Bool)
   | removeInsignificantWhitespace (node : Nat)
 
 /-- The node arguments of a step. -/
-def Step.args : Step → List Nat
+def HStep.args : HStep → List Nat
   | .call c => c.args
   | .removeInsignificantWhitespace n => [n]
   | .newNode _ => []
   | .setConsolidation _ => []
 
 /-- The state after the step, whatever the call answered (`ok`, `err`, `panic`). -/
-def stepAll (f : Forest) : Step → Forest
+def stepAll (f : Forest) : HStep → Forest
   | .call c => (c.run f).1
   | .newNode v => (f.newNode v).1
   | .setConsolidation b => f.setConsolidation b
   | .removeInsignificantWhitespace n => f.removeInsignificantWhitespace n
 
 /-- A history. -/
-def runAll (f : Forest) (ss : List Step) : Forest := ss.foldl stepAll f
+def runAll (f : Forest) (ss : List HStep) : Forest := ss.foldl stepAll f
 
 /-- The text node `text_content_mut(node)` hands out for writing: the only child, or — for an element
     without normal children — the empty text node it creates and appends first. -/
@@ -65,14 +65,14 @@ def Call.targets (f : Forest) : Call → List Nat
      | _ => [])
   | _ => []
 
-def Step.targets (f : Forest) : Step → List Nat
+def HStep.targets (f : Forest) : HStep → List Nat
   | .call c => c.targets f
   | _ => []
 
 end Forest
 
 /-- The calls of the C04 history type `Op` as steps. -/
-def Op.toStep : Op → Forest.Step
+def Op.toStep : Op → Forest.HStep
   | .newDocument => .newNode .document
   | .newElement n => .newNode (.element n)
   | .newText s => .newNode (.text s)
